@@ -36,7 +36,8 @@ import (
 
 func linkKeyIO(seed string) iface.IO {
 	k := sha256.Sum256([]byte(seed))
-	sk, err := enc.NewSecretbox(k[:])
+	buf := append([]byte{}, k[:]...)
+	sk, err := enc.NewSecretbox(buf)
 	if err != nil {
 		panic(err)
 	}
@@ -44,7 +45,16 @@ func linkKeyIO(seed string) iface.IO {
 	if err != nil {
 		panic(err)
 	}
-	return base.ApplyOptions(&cbor.Options{LinkKey: sk})
+	io := base.ApplyOptions(&cbor.Options{LinkKey: sk})
+	// the caller's key buffer is the caller's: it is reused for the other key of the checks (a scratch buffer read
+	// from a file, a buffer wiped after use); the codec keeps the key it was given, not the buffer
+	otherSeed := "K1"
+	if seed == "K1" {
+		otherSeed = "K2"
+	}
+	other := sha256.Sum256([]byte(otherSeed))
+	copy(buf, other[:])
+	return io
 }
 
 type c08Case struct {
